@@ -240,6 +240,40 @@ theorem unknown_stream_is_noop (t : Table) (op : Op) (hu : ∀ e ∈ t, e.id ≠
   | shutdown id d => exact shutdown_of_unknown t id _ hu
   | failed id => exact shutdown_of_unknown t id _ hu
 
+/-- **A stream that is gone stays gone**: once a stream has no entry (both halves ended, or reset),
+no later operation - late shutdown messages from its dropped halves, failures, operations on other
+streams - brings an entry for it back; only a new request with that id does. So late messages of a
+finished stream cannot leave a stale entry behind -/
+theorem removed_stays_removed (ops : List Op) (t : Table) (id : Nat) (hu : ∀ e ∈ t, e.id ≠ id)
+    (hno : ∀ op ∈ ops, op ≠ .request id) : ∀ e ∈ run t ops, e.id ≠ id := by
+  induction ops generalizing t with
+  | nil => exact hu
+  | cons op ops ih =>
+    show ∀ e ∈ run (step t op) ops, e.id ≠ id
+    apply ih
+    · intro e he heq
+      by_cases hs : op.streamId = id
+      · have hnoop := unknown_stream_is_noop t op (by rw [hs]; exact hu)
+        have hne : op ≠ .request id := hno op (by simp)
+        cases op with
+        | request i =>
+          have : i = id := hs
+          exact hne (by rw [this])
+        | readFinished i => rw [hnoop] at he; exact hu e he heq
+        | close i => rw [hnoop] at he; exact hu e he heq
+        | shutdown i d => rw [hnoop] at he; exact hu e he heq
+        | failed i => rw [hnoop] at he; exact hu e he heq
+      · have := (other_streams_untouched t op e (by rw [heq]; exact fun h => hs h.symm)).1 he
+        exact hu e this heq
+    · intro o ho
+      exact hno o (by simp [ho])
+
+/-- after a reset of a stream, whatever follows short of a new request with its id (late messages of its
+halves, traffic of other streams) leaves no entry for it -/
+theorem finished_stream_leaves_no_entry (t : Table) (id : Nat) (late : List Op)
+    (hno : ∀ op ∈ late, op ≠ .request id) : ∀ e ∈ run (step t (.close id)) late, e.id ≠ id :=
+  removed_stays_removed late _ id (shutdown_both_removes t id) hno
+
 example : run [] [.request 0, .shutdown 0 .both, .request 4, .readFinished 4, .shutdown 4 .read, .request 8,
     .shutdown 4 .write, .close 8, .failed 8] = [] := by decide
 example : run [] [.request 0, .request 4, .readFinished 0, .shutdown 0 .read, .shutdown 4 .write]
